@@ -21,7 +21,7 @@ func ruleText(thorough bool) string {
 		"(3) PDF: every indirect reference retargeted to every object number, every startxref, /Prev and xref-entry offset retargeted to every section and object offset; (4) every PDF object dropped / duplicated (rebuilt through pdfw with a consistent xref, and raw span removal / duplication), every ZIP member dropped / duplicated; " +
 		"(5) every delimiter deleted / doubled / swapped for its partner (PDF ( ) [ ] < > << >>, XML/HTML < > \" / = & ;); (6) every compressed stream (PDF Flate streams, deflated ZIP members: raw bytes and inside a consistent container) first/middle/last byte flipped, truncated by 1, emptied; " +
 		"(7) single-byte substitution at every offset of every base file, of every ZIP member's content (re-zipped validly) and of every decoded PDF Flate stream (re-encoded) from {00,FF,20,0A,<,>,(,),[,/,0,9}. Classes 2,3,5 are applied twice on PDFs: on the raw bytes, and on the object bodies of the pdfw plan with the file rebuilt (offsets and /Length stay consistent). " +
-		"Entry points: structural singles and token-boundary truncations run tabula.Open(f) x {Text, ToMarkdown, ToMarkdownWithOptions, Chunks, ChunksWithConfig, Document, PageCount, ExcludeHeadersAndFooters.Text, JoinParagraphs.Text, Pages(1).Text} (+ for PDFs Fragments, Analyze, Lines, Paragraphs, ReadingOrder, Headings, Lists, Blocks, Elements, IsCharacterLevel, IsMultiColumn, ExcludeHeadersAndFooters.Lines, ByColumn.Text, PreserveLayout.Text; for HTML FromHTMLString/FromHTMLReader x Text, ToMarkdown, Document, Chunks) + format.DetectFromReader + the raw parsers that match the faulted span " +
+		"Entry points: structural singles and token-boundary truncations run tabula.Open(f) x {Text, ToMarkdown, ToMarkdownWithOptions, Chunks, ChunksWithConfig, Document, PageCount, ExcludeHeadersAndFooters.Text, JoinParagraphs.Text, Pages(1).Text} (+ for PDFs Fragments, Analyze, Lines, Paragraphs, ReadingOrder, Headings, Lists, Blocks, Elements, IsCharacterLevel, IsMultiColumn, ExcludeHeadersAndFooters.Lines, ByColumn.Text, PreserveLayout.Text; for HTML FromHTMLString/FromHTMLReader x Text, ToMarkdown, Document, Chunks) + format.DetectFromReader + reader.API (the format's own reader package driven directly: reader.Open + GetObject of every object, GetPage/MediaBox/Resources/Contents/ExtractText/ExtractPageImages, ResolveDeep(trailer), FromReader.Text; docx/odt/xlsx/pptx/epubdoc/htmldoc Open + every exported accessor) + the raw parsers that match the faulted span " +
 		"(core.Parser.ParseIndirectObject/ParseObject on the object, XRefParser.ParseXRefFromEOF/ParseAllXRefs on the file, contentstream.Parse + text.ExtractFromBytes on a content stream, font.ParseToUnicodeCMap on a CMap, Stream.Decode/ObjectStream on Flate data); " + reduced +
 		"every PDF-only method is also called on every non-PDF base (unfaulted, empty, cut in half). distinct = distinct descriptors (base, part, fault class, site, replacement, entry); non-trivial = at least one fault applied. " +
 		"Oracle: the call returns a value or an error; violation = Go panic (signature panic@first tabula frame), blown step/depth/allocation budget (steps@outermost function on the stack with a hot loop, depth@most frequent function on the stack, alloc@make site), worker death, 300 s backstop."
@@ -33,56 +33,52 @@ var rePrev = regexp.MustCompile(`/Prev ([0-9]+)`)
 var reStartxref = regexp.MustCompile(`startxref\s+([0-9]+)`)
 
 func (r *runner) timeUp(what string) bool {
-	if r.stop {
-		return true
-	}
-	if r.e.TimeUp() {
-		r.e.Incomplete(what + ": internal time budget reached; the remaining pairs of this tier were not run")
+	if r.stop || r.e.TimeUp() {
+		r.e.Incomplete(what + ": not completed within the internal time budget")
 		r.stop = true
 	}
 	return r.stop
 }
 
-// pairs runs all compatible pairs of structural edits: same group first (the quick set), then, in
-// the thorough tier, every remaining pair until the time budget is used up.
-func (r *runner) pairs(bi *baseInfo, S []edit) {
-	byGroup := map[string][]int{}
-	var groups []string
-	for i, ed := range S {
-		g := bi.parts[ed.part].name + "|" + ed.group
-		if _, ok := byGroup[g]; !ok {
-			groups = append(groups, g)
+// pairs runs compatible pairs of structural edits. cross=false: all pairs within the same group
+// (PDF object / xref section / ZIP record / XML tag) - the set the quick tier completes; cross=true
+// (thorough, second phase): every remaining pair of the layer until the time budget is used up.
+func (r *runner) pairs(bi *baseInfo, S []edit, cross bool) {
+	key := func(ed edit) string { return bi.parts[ed.part].name + "|" + ed.group }
+	if !cross {
+		byGroup := map[string][]int{}
+		var groups []string
+		for i, ed := range S {
+			g := key(ed)
+			if _, ok := byGroup[g]; !ok {
+				groups = append(groups, g)
+			}
+			byGroup[g] = append(byGroup[g], i)
 		}
-		byGroup[g] = append(byGroup[g], i)
-	}
-	n := 0
-	for _, g := range groups {
-		idx := byGroup[g]
-		for a := 0; a < len(idx); a++ {
-			for b := a + 1; b < len(idx); b++ {
-				x, y := S[idx[a]], S[idx[b]]
-				if !compatible(x, y) {
-					continue
+		for _, g := range groups {
+			idx := byGroup[g]
+			for a := 0; a < len(idx); a++ {
+				for b := a + 1; b < len(idx); b++ {
+					x, y := S[idx[a]], S[idx[b]]
+					if !compatible(x, y) {
+						continue
+					}
+					eds := []edit{x, y}
+					r.exec(bi, eds, r.entriesFor(bi, eds, "pair"))
 				}
-				if n++; n%256 == 0 && r.e.Thorough() && r.timeUp("doubles/"+bi.b.name) {
-					return
-				}
-				eds := []edit{x, y}
-				r.exec(bi, eds, r.entriesFor(bi, eds, "pair"))
-				r.e.Add("pairs_same_group", 0)
 			}
 		}
-	}
-	if !r.e.Thorough() {
 		return
 	}
+	n := 0
 	for i := 0; i < len(S); i++ {
+		ki := key(S[i])
 		for j := i + 1; j < len(S); j++ {
 			x, y := S[i], S[j]
-			if bi.parts[x.part].name+"|"+x.group == bi.parts[y.part].name+"|"+y.group || !compatible(x, y) {
+			if ki == key(y) || !compatible(x, y) {
 				continue
 			}
-			if n++; n%256 == 0 && r.timeUp("doubles/"+bi.b.name) {
+			if n++; n%64 == 0 && r.timeUp("cross-group doubles of "+bi.b.name) {
 				return
 			}
 			eds := []edit{x, y}
@@ -92,6 +88,9 @@ func (r *runner) pairs(bi *baseInfo, S []edit) {
 }
 
 func (r *runner) singles(bi *baseInfo, eds []edit, level string) {
+	if r.phase != 1 {
+		return
+	}
 	for _, ed := range eds {
 		one := []edit{ed}
 		r.exec(bi, one, r.entriesFor(bi, one, level))
@@ -99,6 +98,9 @@ func (r *runner) singles(bi *baseInfo, eds []edit, level string) {
 }
 
 func (r *runner) subs(bi *baseInfo, pi int, text []byte, groupOf func(int) string) {
+	if r.phase != 1 {
+		return
+	}
 	for off, c := range text {
 		for _, v := range subAlphabet {
 			if v == c {
@@ -111,6 +113,9 @@ func (r *runner) subs(bi *baseInfo, pi int, text []byte, groupOf func(int) strin
 }
 
 func (r *runner) truncs(bi *baseInfo, pi int, text []byte, full map[int]bool, everyByte bool, groupOf func(int) string) {
+	if r.phase != 1 {
+		return
+	}
 	for off := 0; off < len(text); off++ {
 		level := "reduced"
 		class := "truncb"
@@ -157,22 +162,31 @@ func (r *runner) mismatch(bi *baseInfo) {
 	}
 }
 
-func (r *runner) enumerate(bi *baseInfo) {
+// enumerate: phase 1 = unfaulted base, all singles, all same-group doubles; phase 2 (thorough
+// only, after phase 1 of every base) = the cross-group doubles, under the time budget.
+func (r *runner) enumerate(bi *baseInfo, phase int) {
 	b := bi.b
-	r.exec(bi, nil, r.entriesFor(bi, nil, "full"))
+	r.phase = phase
+	if phase == 1 {
+		r.exec(bi, nil, r.entriesFor(bi, nil, "full"))
+		if b.kind != "pdf" {
+			r.mismatch(bi)
+		}
+	} else if r.timeUp("cross-group doubles of " + b.name) {
+		return
+	}
 	switch b.kind {
 	case "pdf":
-		r.enumPDF(bi)
+		r.phase = phase
+		r.enumPDF(bi, phase)
 	case "zip":
-		r.mismatch(bi)
-		r.enumZip(bi)
+		r.enumZip(bi, phase)
 	case "html":
-		r.mismatch(bi)
-		r.enumHTML(bi)
+		r.enumHTML(bi, phase)
 	}
 }
 
-func (r *runner) enumPDF(bi *baseInfo) {
+func (r *runner) enumPDF(bi *baseInfo, phase int) {
 	b := bi.b
 	data := b.data
 	spans := bi.spans
@@ -248,7 +262,9 @@ func (r *runner) enumPDF(bi *baseInfo) {
 		}
 	}
 	r.singles(bi, S, "full")
-	r.e.Add("structural_sites_raw", int64(len(S)))
+	if phase == 1 {
+		r.e.Add("structural_sites_raw", int64(len(S)))
+	}
 
 	// (7) byte substitution
 	r.subs(bi, 0, data, groupOf)
@@ -274,7 +290,9 @@ func (r *runner) enumPDF(bi *baseInfo) {
 		}
 	}
 	r.singles(bi, T, "full")
-	r.e.Add("structural_sites_obj", int64(len(T)))
+	if phase == 1 {
+		r.e.Add("structural_sites_obj", int64(len(T)))
+	}
 	for pi := 1; pi < len(bi.parts); pi++ {
 		p := bi.parts[pi]
 		if p.kind != "data" {
@@ -298,11 +316,11 @@ func (r *runner) enumPDF(bi *baseInfo) {
 		r.subs(bi, pi, p.text, g)
 	}
 
-	r.pairs(bi, S)
-	r.pairs(bi, T)
+	r.pairs(bi, S, phase == 2)
+	r.pairs(bi, T, phase == 2)
 }
 
-func (r *runner) enumZip(bi *baseInfo) {
+func (r *runner) enumZip(bi *baseInfo, phase int) {
 	b := bi.b
 	data := b.data
 	fields, datas, err := scanZip(data)
@@ -359,7 +377,9 @@ func (r *runner) enumZip(bi *baseInfo) {
 		}
 	}
 	r.singles(bi, S, "full")
-	r.e.Add("structural_sites_raw", int64(len(S)))
+	if phase == 1 {
+		r.e.Add("structural_sites_raw", int64(len(S)))
+	}
 	r.subs(bi, 0, data, groupOf)
 
 	var T []edit
@@ -375,7 +395,9 @@ func (r *runner) enumZip(bi *baseInfo) {
 		}
 	}
 	r.singles(bi, T, "full")
-	r.e.Add("structural_sites_member", int64(len(T)))
+	if phase == 1 {
+		r.e.Add("structural_sites_member", int64(len(T)))
+	}
 	for pi := 1; pi < len(bi.parts); pi++ {
 		p := bi.parts[pi]
 		if p.kind != "member" {
@@ -389,11 +411,11 @@ func (r *runner) enumZip(bi *baseInfo) {
 		r.truncs(bi, pi, p.text, tb, false, g)
 		r.subs(bi, pi, p.text, g)
 	}
-	r.pairs(bi, S)
-	r.pairs(bi, T)
+	r.pairs(bi, S, phase == 2)
+	r.pairs(bi, T, phase == 2)
 }
 
-func (r *runner) enumHTML(bi *baseInfo) {
+func (r *runner) enumHTML(bi *baseInfo, phase int) {
 	data := bi.b.data
 	g := xmlGroup(data)
 	tb := map[int]bool{}
@@ -403,7 +425,9 @@ func (r *runner) enumHTML(bi *baseInfo) {
 	r.truncs(bi, 0, data, tb, true, g)
 	S := structuralEdits(0, data, false, 0, nil, g, nil)
 	r.singles(bi, S, "full")
-	r.e.Add("structural_sites_raw", int64(len(S)))
+	if phase == 1 {
+		r.e.Add("structural_sites_raw", int64(len(S)))
+	}
 	r.subs(bi, 0, data, g)
-	r.pairs(bi, S)
+	r.pairs(bi, S, phase == 2)
 }
